@@ -133,6 +133,10 @@ def pipeline(tier, rep, calibrate=True):
                         traps += int(line.rsplit("traps=", 1)[1])
         chunks = _split([t[1] for t in tasks], os.path.join(d, "md_%s_%s_c" % (impl, tier)), 40000 if tier == "quick" else 150000)
         tv[impl] = vlib.tv_parallel("MdTrace.tla", "MdTrace.cfg", chunks, "md_tv_%s_%s" % (impl, tier), par=8, heap="3g")
+    if tier == "thorough" and not any(tv[i]["deviations"] for i in impls):
+        for f in os.listdir(d):          # about a GB per run; every run regenerates them
+            if f.startswith("md_") and "_thorough_" in f:
+                os.remove(os.path.join(d, f))
     rep.add_tv("Md", tv["etl"], len(gen), "every exported extents tuple / stride vector / span triple on every compiled pattern")
     m = rep.cov["modules"]["Md"]
     m["not_drivable"] = nd
